@@ -134,7 +134,14 @@ impl Prop for C02 {
                 check_rescan(&mut out, "pair-sweep", &text, &cfg);
                 continue;
             }
-            let w = common::well_formed(ctx, &mut rng, 30);
+            let w = if rng.chance(1, 5) {
+                // "any placement of comments": own-line comments between arbitrary tokens
+                let deco = crate::gen::layout::DecoOpts { odd_comment: *rng.pick(&[5u32, 20, 60]), ..crate::gen::layout::DecoOpts::light() };
+                out.count("gen.gram-odd-comments");
+                common::gram_case(&mut rng, 25, &deco)
+            } else {
+                common::well_formed(ctx, &mut rng, 30)
+            };
             let mut cfg = if rng.chance(1, 4) { Cfg::sample(&mut rng) } else { Cfg::sample_sane(&mut rng) };
             if let Some(sw) = w.seed_width {
                 if rng.bool() {
